@@ -30,7 +30,7 @@ if PROPERTY not in ("C01", "C06"):
 LEVEL = "exploration" if PROPERTY == "C01" else "fault_enumeration"
 ops.AVOID_NODE_OUTPUTS_ON_GRAPH_INPUTS = PROPERTY != "C01"
 TIERS = {
-    "quick": {"wall": 30, "optimize_wall": 10, "chunk": 60, "shrink_budget": 400, "shrink_wall": 60},
+    "quick": {"max_runs": 4000, "optimize_runs": 800, "wall": 420, "optimize_wall": 180, "chunk": 60, "shrink_budget": 400, "shrink_wall": 60},
     "thorough": {"wall": 900, "optimize_wall": 120, "chunk": 200, "shrink_budget": 800, "shrink_wall": 240},
 }
 RULE = (
